@@ -188,7 +188,15 @@ let to_tyreq (e : sexp) : M.tyreq =
       tr_cfg = { M.c_autoconvert = to_bool ac; c_std = to_bool std }; tr_prog = to_prog p }
   | _ -> failwith "bad typing request"
 
-(* <id> <f32|f64|q|z|text|ty> <std|core|-> <request> *)
+let to_creq (e : sexp) : M.creq =
+  match e with
+  | L [A "new"; u; d; c; k; re; im; n] -> M.CNew (to_cexprs u, to_zlist d, to_cexpr c, to_const k, to_z re, to_z im, to_z n)
+  | L [A "get"; u; d; c; k; re; im; n] -> M.CGet (to_cexprs u, to_zlist d, to_cexpr c, to_const k, to_z re, to_z im, to_z n)
+  | L [A "bin"; ac; o; u; d; ar; ai; br; bi; bn] -> M.CBin (to_bool ac, to_binop o, to_cexprs u, to_zlist d, to_z ar, to_z ai, to_z br, to_z bi, to_z bn)
+  | L [A "eq"; ac; u; d; ar; ai; br; bi; bn] -> M.CEqual (to_bool ac, to_cexprs u, to_zlist d, to_z ar, to_z ai, to_z br, to_z bi, to_z bn)
+  | _ -> failwith "bad complex request"
+
+(* <id> <f32|f64|q|z|text|ty|c32|c64> <std|core|-> <request> *)
 let run (st : string) (lib : sexp) (r : sexp) : string =
   match st with
   | "f64" -> String.concat " " (List.map string_of_z (M.run64 (to_lib lib) (to_req to_z r)))
@@ -197,6 +205,8 @@ let run (st : string) (lib : sexp) (r : sexp) : string =
   | "z" -> String.concat " " (List.map string_of_z (M.z_run (to_req to_z r)))
   | "text" -> String.concat " " (List.map string_of_z (M.text_run (to_treq r)))
   | "ty" -> String.concat " " (List.map string_of_z (M.typing_run (to_tyreq r)))
+  | "c64" -> String.concat " " (List.map string_of_z (M.crun64 (to_lib lib) (to_creq r)))
+  | "c32" -> String.concat " " (List.map string_of_z (M.crun32 (to_lib lib) (to_creq r)))
   | _ -> failwith ("unknown storage class: " ^ st)
 
 let () =
